@@ -29,7 +29,9 @@ META = {
                   "to be complete only when created on a completely parsed file (a query created during parsing ends when a "
                   "loop iteration sees no new message); on the big uniform log (70 000 messages, windows larger than 64 Ki) "
                   "only frame summaries are checked: the frames tile the window exactly, in order, each position once and its window is changed only while the session is paused; searches "
-                  "and lookups are made on streams after quiescence, page sizes >= 1, strictly increasing message times "
+                  "and lookups are made on streams after quiescence (numeric parameters also with the classes 0, small, len-1, len, "
+                  "len+1, u32::MAX, u32::MAX+1, u64::MAX/1000+1, 2^62, u64::MAX with saturating meaning; an index beyond the file may be "
+                  "answered err: or with the stream length; malformed numbers are left to C15), strictly increasing message times "
                   "(time = reception time = lifecycle start + timestamp); 'eventually' = all messages of the file reported "
                   "(FileInfo) and three consecutive sentinel round trips (each forces a full server loop iteration) without "
                   "a stream frame, limit 90 s. One-pass streams and text (non-binary) streams are not covered.",
@@ -149,7 +151,7 @@ def check(ctx):
     trace_srv = ctx.path("trace-srv.ndjson")
     nrand = 75 if quick else 600
     si = drive(binp, ["server", "--adlt", adlt, "--work", ctx.work, "--scenarios", sscn, "--random", str(nrand), "--seed", str(ctx.seed),
-                      "--out", trace_srv, "--conns", "10", "--logs", "4" if quick else "8", "--throttles", "32:2,8:4,2:3", "--big", "70000", "--max-n", "1500" if quick else "6000"])
+                      "--out", trace_srv, "--conns", "10", "--logs", "4" if quick else "8", "--throttles", "32:2,8:4,2:3", "--big", "70000", "--extremes", "--max-n", "1500" if quick else "6000"])
     sw = c.kf_switches("C16", KFS)
     vs = c.validate_trace(ctx, "srv", "StreamTrace.tla", trace_srv, sw, timeout=3000, xmx="8g")
     ctx.add_tlc("trace-validation-server", vs.res)
@@ -175,6 +177,8 @@ def check(ctx):
         hit = False
         multi = collections.Counter()
         combo = ""
+        if str(evs[0]["hdr"].get("src", "")).startswith("extreme:"):
+            paths["extreme_sessions"] += 1
         for e in evs:
             if e["ev"] == "bin_msgs":
                 if e["n"]:
@@ -237,7 +241,7 @@ def check(ctx):
     ctx.extra["path_hits"] = dict(sorted(paths.items()))
     ctx.extra["kf_switches"] = sw
     needed = ["data_frames", "query_end_marker", "ok_change", "quiescent", "search_continued", "ok_bsearch", "created_during_parsing",
-              "window_empty", "window_in_several_frames", "big_window_frames", "filters_with_disabled", "filters_with_marker",
+              "window_empty", "window_in_several_frames", "big_window_frames", "extreme_sessions", "filters_with_disabled", "filters_with_marker",
               "search_on_event", "lookup_on_event", "search_with_event", "lib_stream", "lib_query", "lib_grow"] + ["search_page_size_%d" % k for k in range(1, 6)]
     for kd in ("stream", "query"):      # every combination of filter kinds, for streams and for queries
         needed += ["filters_%s_%s" % (kd, cb) for cb in ("none", "pos", "neg", "event", "event+pos", "event+neg", "neg+pos", "event+neg+pos")]
